@@ -310,7 +310,87 @@ def _ancestors_until(node, stop):
 # DEP: frame agreement at _make_absolute / recursive call sites
 # ---------------------------------------------------------------------------------------
 
-def check_frames(ctx, f: FuncInfo, rule="DEP-frame", recursive_name: typing.Optional[str] = None, rec_positions=(None, None)):
+def collector_frames_by_evaluation(ctx, f: FuncInfo, rule="DEP-frame"):
+  """The collector of significant times, interpreted (rules/minieval.py) on a sample tree with begin / end offsets at four depths
+  (an end that exceeds the parent's, unbounded ends, a line break, nested spans; no animation steps, which part (2) of DEP-frame
+  decides): the interval it records for every element is the TTML absolute interval (begin relative to the parent's begin, end
+  clamped by the parent's end), every element is visited, the times collected are exactly the begins and bounded ends, and the
+  content interval is the hull of the span / br intervals.  Decides the clauses for any control structure (recursion, explicit
+  stack).  Returns False when the function leaves the interpreted subset."""
+  from .minieval import MiniEval, Node
+  F_ = Fraction
+  mk = lambda kind, name, b, e, ch=(): Node(kind, name, ch, begin=b, end=e, animation_steps=[])
+  tree = mk("Body", "body", None, None, [
+    mk("Div", "d1", F_(10), F_(40), [
+      mk("P", "p1", F_(2), None, [mk("Span", "s1", F_(3), F_(5), [mk("Span", "s11", F_(1), F_(100))]), mk("Br", "br1", None, None), mk("Span", "s2", None, F_(4))]),
+      mk("P", "p2", F_(20), F_(45), [mk("Span", "s3", None, None)])]),
+    mk("Div", "d2", None, F_(7), [mk("P", "p3", F_(1), F_(3), [mk("Span", "s4", F_(1, 2), None)])])])
+
+  # two animation steps on elements without an own offset (there the element's frame and its parent's coincide, so the
+  # expected times do not depend on which of the two the collector uses - that is decided by DEP-frame part 2)
+  step = lambda b, e: {"__record__": "DiscreteAnimationStep", "begin": b, "end": e}
+  by_name = {n_.name: n_ for n_ in tree.walk()}
+  by_name["s3"].fields["animation_steps"] = [step(F_(2), F_(5)), step(None, F_(1))]
+  by_name["body"].fields["animation_steps"] = [step(F_(1), None)]
+  anim_times = {F_(32), F_(35), F_(30), F_(31), F_(1), F_(0)}
+
+  def absolute(n_, pb, pe):
+    b = (pb or F_(0)) + (n_.fields["begin"] or F_(0))
+    e = None if n_.fields["end"] is None else (pb or F_(0)) + n_.fields["end"]
+    if pe is not None:
+      e = pe if e is None else min(e, pe)
+    return b, e
+  want = {}
+
+  def fill(n_, pb, pe):
+    want[n_.name] = absolute(n_, pb, pe)
+    for c_ in n_.children:
+      fill(c_, *want[n_.name])
+  fill(tree, F_(0), None)
+  names = [x.arg for x in f.node.args.args]
+  if len(names) != 6:
+    return False
+  cache, ci, times = {}, [None, None], set()
+  # the initial content interval is what the caller passes (a list display assigned before the calls)
+  outer = f.outer_func
+  if outer is not None:
+    for c_ in own_nodes(outer.node):
+      if isinstance(c_, ast.Call) and isinstance(c_.func, ast.Name) and c_.func.id == f.name and len(c_.args) >= 2 and isinstance(c_.args[1], ast.Name):
+        for st_ in own_nodes(outer.node):
+          if isinstance(st_, ast.Assign) and len(st_.targets) == 1 and unparse(st_.targets[0]) == c_.args[1].id and isinstance(st_.value, ast.List) \
+              and all(isinstance(x, ast.Constant) for x in st_.value.elts):
+            ci = [x.value for x in st_.value.elts]
+  if len(ci) != 2:
+    return False
+  if ci[1] == 0:
+    ci[1] = Fraction(0)
+  me = MiniEval(ctx.ix)
+  try:
+    me.call(f, [cache, ci, times, tree, F_(0), None])
+  except NotConst:
+    return False
+  except Raised:
+    ctx.bad(rule, f"{f.qualname}|element intervals on a sample tree", ctx.where(f.module, f.node), "interpreted on a sample tree, the collector raises")
+    return True
+  ctx.unit(f.module)
+  got = {k.name: v for k, v in cache.items() if isinstance(k, Node)}
+  diff = [f"{k}: {got.get(k)} instead of {v}" for k, v in want.items() if got.get(k) != v]
+  ctx.check(not diff, rule, f"{f.qualname}|element intervals on a sample tree (own frame, children in the element's interval, every element visited)", ctx.where(f.module, f.node),
+            f"{len(want)} elements: recorded interval = TTML absolute interval",
+            "interpreted on a sample tree, the recorded intervals differ from the TTML absolute intervals: " + "; ".join(diff[:3]) + f" ({len(diff)} of {len(want)} elements)")
+  exp_times = {t for iv in want.values() for t in iv if t is not None} | anim_times
+  ctx.check(times == exp_times, "COMPLETE", f"{f.qualname}|begins and bounded ends of every element and animation step are collected (sample tree)", ctx.where(f.module, f.node),
+            f"{len(exp_times)} times", f"interpreted on a sample tree, the collected times miss {sorted(exp_times - times)[:4]} and add {sorted(times - exp_times)[:4]}")
+  leaves = [want[n_.name] for n_ in tree.walk() if n_.kind in ("Span", "Br")]
+  hull = [min(b for b, _ in leaves), None if any(e is None for _, e in leaves) else max(e for _, e in leaves)]
+  if any(n_.fields["end"] is None and want[n_.name][1] is None for n_ in tree.walk() if n_.kind in ("Span", "Br")):
+    hull[1] = None
+  ctx.check(list(ci) == hull, "FIN-hull", f"{f.qualname}|content interval of the sample tree", ctx.where(f.module, f.node), f"hull {hull}",
+            f"interpreted on a sample tree, the content interval is {list(ci)} but the hull of the span / br intervals is {hull}")
+  return True
+
+
+def check_frames(ctx, f: FuncInfo, rule="DEP-frame", recursive_name: typing.Optional[str] = None, rec_positions=(None, None), parts=(1, 2, 3)):
   """In f: (1) the element's own interval comes from _make_absolute(element.get_begin(),
   element.get_end(), <parent begin param>, <parent end param>); (2) animation steps are made
   absolute against the element's own interval; (3) recursive calls over the children pass the
@@ -335,22 +415,25 @@ def check_frames(ctx, f: FuncInfo, rule="DEP-frame", recursive_name: typing.Opti
     raise AnalysisError(f"{f.qualname}: the element's own _make_absolute(element.get_begin(), element.get_end(), ...) was not found")
   bv, ev, call = own
   pb, pe_ = unparse(call.args[2]), unparse(call.args[3])
-  n += 1
-  ctx.check(pb in f.params and pe_ in f.params and pb != pe_, rule, f"{f.qualname}|element interval relative to the parent interval parameters",
+  if 1 in parts:
+   n += 1
+   ctx.check(pb in f.params and pe_ in f.params and pb != pe_, rule, f"{f.qualname}|element interval relative to the parent interval parameters",
             ctx.where(f.module, call), f"element interval = _make_absolute(begin, end, {pb}, {pe_})",
             f"the element's interval is computed against `{pb}`, `{pe_}`, which are not the function's parent-interval parameters")
   # (2) animation steps
-  for c in own_nodes(f.node):
+  for c in (own_nodes(f.node) if 2 in parts else ()):
     if isinstance(c, ast.Call) and unparse(c.func).endswith("_make_absolute") and len(c.args) == 4 and ".begin" in unparse(c.args[0]) and ".end" in unparse(c.args[1]) \
         and "get_begin" not in unparse(c.args[0]):
       n += 1
       a2, a3 = unparse(c.args[2]), unparse(c.args[3])
-      ctx.check((a2, a3) == (bv, ev), rule, f"{f.qualname}|{unparse(c)}", ctx.where(f.module, c),
+      # (keyed by the frame that is used, not by the spelling of the local names)
+      akey = f"{f.qualname}|animation steps resolved against the interval of the element's parent" if (a2, a3) == (pb, pe_) else f"{f.qualname}|{unparse(c)}"
+      ctx.check((a2, a3) == (bv, ev), rule, akey, ctx.where(f.module, c),
                 f"animation step resolved against the element's own interval ({bv}, {ev})",
                 f"the animation step's begin/end are resolved against ({a2}, {a3}) instead of the element's own interval ({bv}, {ev}): "
                 "a set on an element with a non-zero begin is placed at the wrong absolute time")
   # (3) recursion over children
-  if recursive_name:
+  if recursive_name and 3 in parts:
     for loop in own_nodes(f.node):
       if not isinstance(loop, ast.For):
         continue
